@@ -75,8 +75,8 @@ fn check_expects(ctx: &WorkerCtx, rep: &mut WorkerReport, s: &mut ScFull, case_s
             ("CALLER", 8, format!("{:0>64}", hex::encode(e.sender))),
             ("BLOCKHASH(number-k)", 9, if e.k == 0 || e.k > e.number { w64(0) } else { hash_of(&s.sc.hashes_at(e.number), e.number - e.k, e.number) }),
             ("txid-helper success", 10, w64(1)),
-            ("txid-helper returndatasize", 11, w64(if s.sc.prague { 32 } else { 0 })),
-            ("txid-helper word", 12, if s.sc.prague { word_hex(&e.txid) } else { w64(0) }),
+            ("txid-helper returndatasize", 11, w64(if prague_at(s.sc.net, e.number) { 32 } else { 0 })),
+            ("txid-helper word", 12, if prague_at(s.sc.net, e.number) { word_hex(&e.txid) } else { w64(0) }),
             ("BLOCKHASH(abs)", 13, hash_of(&s.sc.hashes_at(e.number), e.abs, e.number)),
             ("marker", 14, w64(1)),
         ];
@@ -97,6 +97,12 @@ fn check_expects(ctx: &WorkerCtx, rep: &mut WorkerReport, s: &mut ScFull, case_s
         let reads_nonzero_bh = (e.k >= 1 && e.k <= e.number && e.k <= 256) || (e.abs < e.number && e.number - e.abs <= 256);
         if e.kind == "drained" || e.situation == "after-reorg" || reads_nonzero_bh {
             rep.nontrivial(format!("{}:{}:{}:{}", e.kind, s.sc.net, e.situation, if reads_nonzero_bh { "blockhash" } else { "-" }));
+        }
+        if s.sc.chain_base > 0 {
+            let act = prague_height(s.sc.net);
+            let rel = if e.number == act { "first-prague-block" } else if e.number + 1 == act { "last-cancun-block" } else if e.number < act { "before" } else { "after" };
+            rep.nontrivial(format!("rule-change:{}:{}:{}", s.sc.net, rel, e.kind));
+            rep.set_add("rule_change_probes", format!("{}:{}:{}", s.sc.net, rel, e.kind));
         }
         rep.count(&format!("probes:{}", e.kind), 1);
     }
@@ -125,6 +131,8 @@ struct Sc2<'a> {
     net: &'a str,
     chain_id: u64,
     prague: bool,
+    /// height the chain was initialised at (0, or just below the Prague height)
+    chain_base: u64,
     tool: String,
     hashes: BTreeMap<u64, String>,
     /// hashes as they were when block `n` was being built are the same map restricted to < n,
@@ -154,15 +162,24 @@ pub fn worker(ctx: &WorkerCtx) -> WorkerReport {
     let cases = if ctx.thorough() { 8 } else { 1 };
     for c in 0..cases {
         let cs = rng.next();
-        run_case(ctx, &mut rep, net, cs, ctx.shard % 4 == 3 && c == 0);
+        let boundary = c == 0 && ((net == "signet" && ctx.shard % 12 == 1) || (net == "bitcoin" && ctx.thorough() && ctx.shard % 96 == 2));
+        run_case(ctx, &mut rep, net, cs, ctx.shard % 4 == 3 && c == 0 && !boundary, boundary);
     }
     rep
 }
 
-fn run_case(ctx: &WorkerCtx, rep: &mut WorkerReport, net: &str, case_seed: u64, deep: bool) {
+fn run_case(ctx: &WorkerCtx, rep: &mut WorkerReport, net: &str, case_seed: u64, deep: bool, boundary: bool) {
     let mut rng = Rng::new(case_seed);
     let mut d = new_driver("C19");
-    d.exec(Op::Init { hash: hist::ZERO_HASH.into(), ts: 1, height: 0 });
+    // boundary mode: the chain is initialised a few blocks below the Prague height of the network
+    let act = prague_height(net);
+    let chain_base = if boundary && act > 20 { act - 3 - rng.below(4) } else { 0 };
+    if chain_base > 0 && !mine_to(&mut d, chain_base) {
+        rep.inconclusive("mining up to the rule-change height failed");
+        drop_driver(d);
+        return;
+    }
+    d.exec(Op::Init { hash: hist::ZERO_HASH.into(), ts: 1, height: chain_base });
     let pk = "5120eeeeeeeeeeeeeeeeeeeeeeeeeeeeeeeeeeeeeeeeeeeeeeeeeeeeeeeeeeeeeeee".to_string();
     let h1 = crate::hist::bh((0xc19u64) as u64);
     let r = d.exec(Op::Deploy { pk: pk.clone(), data: hist::hx(&asm::tool_init()), enc: Enc::Hex, ctx: Ctx { ts: 2, hash: h1.clone(), idx: 0 }, iid: "c19-tool".into(), len: 100_000, txid: hist::ZERO_HASH.into() });
@@ -173,14 +190,14 @@ fn run_case(ctx: &WorkerCtx, rep: &mut WorkerReport, net: &str, case_seed: u64, 
     };
     d.exec(Op::Finalise { ts: 2, hash: h1.clone(), count: 1 });
     let mut hashes = BTreeMap::new();
-    hashes.insert(0u64, gen_hash(0));
-    hashes.insert(1u64, h1);
-    let prague = match net {
-        "regtest" => true,
-        _ => false, // signet < 275000 and bitcoin < 923369 run Cancun
-    };
+    // the mined blocks carry server-generated hashes; the last 300 are within BLOCKHASH reach
+    for n in chain_base.saturating_sub(300)..=chain_base {
+        hashes.insert(n, gen_hash(n));
+    }
+    hashes.insert(chain_base + 1, h1);
+    let prague = prague_at(net, chain_base + 1);
     let mut s = ScFull {
-        sc: Sc2 { d, rng: rng.fork(1), net, chain_id: rpc::chain_id_for(net), prague, tool, hashes, snapshots: BTreeMap::new(), expects: vec![], uniq: 0, base: 0x1000, pk, signer: Signer::new(3), after_reorg: false, parked: None, parked_at: 0 },
+        sc: Sc2 { d, rng: rng.fork(1), net, chain_id: rpc::chain_id_for(net), prague, chain_base, tool, hashes, snapshots: BTreeMap::new(), expects: vec![], uniq: 0, base: 0x1000, pk, signer: Signer::new(3), after_reorg: false, parked: None, parked_at: 0 },
         bridge: vec![],
     };
     if deep {
@@ -214,7 +231,7 @@ fn run_case(ctx: &WorkerCtx, rep: &mut WorkerReport, net: &str, case_seed: u64, 
         }
     }
     if rep.samples.len() < 2 {
-        rep.sample(json!({"case_seed": case_seed, "network": net, "prague": prague, "blocks": s.sc.d.height + 1, "deep_chain": deep, "reorged": did_reorg, "last_calls": log_json(&s.sc.d.log, 3)}));
+        rep.sample(json!({"case_seed": case_seed, "network": net, "prague_at_start": prague, "initialised_at": chain_base, "blocks": s.sc.d.height + 1, "deep_chain": deep, "reorged": did_reorg, "last_calls": log_json(&s.sc.d.log, 3)}));
     }
     drop_driver(s.sc.d);
 }
